@@ -38,6 +38,7 @@ STRATA = [
     ("balanced-multi", 1200, 20000),
     ("deep", 1200, 20000),
     ("degenerate", 1200, 20000),
+    ("huge-cost", 900, 12000),
     ("larger", 120, 2500),
     ("ns-maxiter", 500, 8000),
     ("assignment", 1500, 25000),
@@ -325,6 +326,23 @@ def gen(stratum, rng, tier):
         d = _demand(rng, n, arcs, s, t) if rng.random() < 0.5 else None
         return _case(rng, n, arcs, s if d is not None else None, t if d is not None else None, d, multi)
 
+    if stratum == "huge-cost":
+        # integer costs far above 2**53 (lexicographic objectives big*primary + secondary, nanosecond or satoshi
+        # totals): routes differ only in the low digits, so any float in the labels or the bookkeeping loses them
+        c = gen(rng.choice(["simple", "parallel", "antiparallel", "deep", "balanced-multi", "saturated"]), rng, tier)
+        big = rng.choice([2 ** 53, 2 ** 60, 10 ** 18, 10 ** 18, 3 * 10 ** 20])
+        mode = rng.choice(["lex", "lex", "offset"])
+        if any(w < 0 for _, _, _, w in c["arcs"]):
+            mode = "lex"  # (an offset would turn cycles with more negative than positive arcs negative)
+        arcs = []
+        for u, v, cap, w in c["arcs"]:
+            if mode == "lex":
+                # low digits only on non-negative arcs: every cycle keeps a non-negative total
+                arcs.append((u, v, cap, big * w + (rng.randint(0, 5) if w >= 0 else 0)))
+            else:
+                arcs.append((u, v, cap, big + w))
+        c["arcs"] = arcs
+        return c
     if stratum == "larger":
         n = rng.randint(10, 30)
         arcs = []
